@@ -471,7 +471,7 @@ def _s_edge_index(eng, st, g, u, v):
 
 
 # ---------------------------------------------------------------------------- frame helpers (current heap vs old heap)
-OLD_SPECS = {'node_unchanged', 'edge_unchanged'}
+OLD_SPECS = {'node_unchanged', 'edge_unchanged', 'attr_unchanged'}
 
 
 def _n_node_unchanged2(g, g_old, n):
@@ -484,7 +484,12 @@ def _n_edge_unchanged2(g, g_old, u, v):
     return (not g.has_edge(u, v)) or _deep_eq(dict(g.edges[u, v]), dict(g_old.edges[u, v]))
 
 
-NATIVE_OLD = {'node_unchanged': _n_node_unchanged2, 'edge_unchanged': _n_edge_unchanged2}
+def _n_attr_unchanged2(g, g_old, n, k):
+    a, b = g.nodes[n], g_old.nodes[n]
+    return (k in a) == (k in b) and (k not in a or _deep_eq(a[k], b[k]))
+
+
+NATIVE_OLD = {'node_unchanged': _n_node_unchanged2, 'edge_unchanged': _n_edge_unchanged2, 'attr_unchanged': _n_attr_unchanged2}
 
 
 @spec('node_unchanged', None)
@@ -609,3 +614,30 @@ def _n_key_index(d, k):
 @spec('key_index', _n_key_index, ret=TInt)
 def _s_key_index(eng, st, d, k):
     return Val(TInt, d.ty.idx(d.t)[ops.coerce(k, d.ty.key).t])
+
+
+@spec('fresh_graph', lambda g: True)
+def _s_fresh_graph(eng, st, g):
+    """The graph was allocated by the function under contract (its id is not below the entry allocation counter).
+    Natively unobservable (always true): used only in loop invariants."""
+    return Val(TBool, g.t >= eng.entry_next_gid)
+
+
+@spec('attr_unchanged', None)
+def _s_attr_unchanged(eng, st, g, n, k, old=None):
+    if old is None:
+        raise Unsupported('attr_unchanged outside a two-state context')
+    suf, ty = _H.NODE_SCHEMAS[g.ty.schema][_cstr(k)]
+    h, o = st.heap, old.heap
+    return Val(TBool, z3.And(h.nhas(g.t, n.t, suf) == o.nhas(g.t, n.t, suf),
+                             z3.Implies(h.nhas(g.t, n.t, suf), h.nval(g.t, n.t, suf) == o.nval(g.t, n.t, suf))))
+
+
+def _n_has_neighbor(g, n):
+    return len(list(g.neighbors(n))) > 0
+
+
+@spec('has_neighbor', _n_has_neighbor)
+def _s_has_neighbor(eng, st, g, n):
+    m = z3.Int(fresh_name('nb'))
+    return Val(TBool, z3.Exists([m], st.heap.has_edge(g.t, n.t, m)))
